@@ -79,7 +79,10 @@ Pair == [kind |-> "pair", size |-> S, a |-> a, b |-> b,
          unique    |-> UniqueIntersect(a, b),
          cont      |-> Contingency(a, b, S),
          jaccard   |-> Jaccard(a, b, S),
-         forbes    |-> Forbes(a, b, S)]
+         forbes    |-> Forbes(a, b, S),
+         \* all-against-all similarity of three sets: a, b and the maximal runs of their union
+         third     |-> Merge(a \o b, S, 0),
+         jaccardAll |-> LET sets == <<a, b, Merge(a \o b, S, 0)>> IN [i \in 1..3 |-> [j \in 1..3 |-> Jaccard(sets[i], sets[j], S)]]]
 
 Emit == PrintT(ToJson(IF b = <<>> THEN Single ELSE Pair))
 ==============================================================================
